@@ -40,7 +40,9 @@ fn gc_pressure(vm: &mut Vm) {
 }
 
 fn main() {
-    std::panic::set_hook(Box::new(|_| {}));
+    if std::env::var("MWDEMO_LOUD").is_err() {
+        std::panic::set_hook(Box::new(|_| {}));
+    }
     for sc in std::env::args().skip(1) {
         let mut vm = Vm::new();
         println!("== {}", sc);
@@ -119,6 +121,18 @@ fn main() {
                     vm.prepare_eval(&cell).unwrap();
                 }
                 println!("  prepare {} x{}; debug size {} -> {}", form.trim(), n, before, format!("{:?}", vm).len());
+            }
+            other if other.starts_with("rerun:") => {
+                // rerun: a ;; b ;; c — evaluate the forms in order; after each one call vm.run() once more without preparing
+                for part in other["rerun:".len()..].split(";;") {
+                    let r = eval_all(&mut vm, part);
+                    let again = match catch_unwind(AssertUnwindSafe(|| vm.run())) {
+                        Ok(Ok(c)) => format!("{:#}", c),
+                        Ok(Err(e)) => format!("ERR {}", e),
+                        Err(_) => "<<PANIC>>".into(),
+                    };
+                    println!("  {} => {:?}; run() again => {}", part.trim(), r, again);
+                }
             }
             other if other.starts_with("repeat:") => {
                 // repeat:<n>:<form> — evaluate the form n times in one VM and report the size of the VM's debug rendering
